@@ -383,6 +383,90 @@ harness(void)
         VASSERT(cin == cout, "heap is a permutation of the input (multiset equality at an arbitrary element)");
         VREACHED();
 }
+#elif defined(H_TREE)
+/* ================================================================== length-limited Huffman construction
+ * init_heap64_complete + build_heap + build_huff_tree + fix_code_lens (via gen_huff_code_lens) +
+ * set_huff_codes on a small alphabet TN with depth limit TL, arbitrary 44-bit counts.
+ * CAVEAT (DESIGN C18): CBMC 6.11 mis-models struct heap_tree's anonymous union; the sanity
+ * assertions below (heap is a permutation of the keys after init) exist so that a wrong model shows
+ * up as a failing sanity assertion instead of a silent pass. */
+#ifndef TN
+#define TN 3
+#endif
+#ifndef TL
+#define TL 15
+#endif
+struct inputs {
+        uint64_t cnt[TN];
+        uint8_t j, k;
+};
+DECLARE_INPUTS
+static struct heap_tree hs;
+void
+harness(void)
+{
+        VERIF_INPUTS();
+        uint32_t bl_count[MAX_HUFF_TREE_DEPTH + 1];
+        struct huff_code codes[TN];
+        for (int i = 0; i < TN; i++)
+                VASSUME(I.cnt[i] < (1ull << 44));
+        VASSUME(I.j < TN && I.k < TN);
+        uint32_t heap_size = init_heap64_complete(&hs, I.cnt, TN);
+        VASSERT(heap_size == TN, "sanity: complete heap holds every symbol");
+        {
+                uint64_t key = (I.cnt[I.j] << FREQ_SHIFT) | I.j;
+                int found = 0;
+                for (int i = 1; i <= TN; i++)
+                        found += hs.heap[i] == key;
+                VASSERT(found == 1, "sanity (union model): key of symbol j occurs exactly once in the heap after init");
+                for (int i = 1; i <= TN; i++)
+                        if (2 * i <= TN)
+                                VASSERT(hs.heap[i] <= hs.heap[2 * i], "sanity: min-heap order");
+        }
+        gen_huff_code_lens(&hs, heap_size, bl_count, codes, TN, TL);
+        set_huff_codes(codes, TN, bl_count);
+        uint64_t kraft = 0;
+        uint32_t hist[MAX_HUFF_TREE_DEPTH + 1];
+        for (int l = 0; l <= MAX_HUFF_TREE_DEPTH; l++)
+                hist[l] = 0;
+        for (int i = 0; i < TN; i++) {
+                VASSERT(codes[i].length >= 1 && codes[i].length <= TL, "every symbol: 1 <= code length <= limit");
+                if (codes[i].length >= 1 && codes[i].length <= 15) {
+                        kraft += 1ull << (15 - codes[i].length);
+                        hist[codes[i].length]++;
+                }
+        }
+        VASSERT(kraft == (1ull << 15), "Kraft sum == 1: complete prefix code");
+        for (int l = 1; l <= TL; l++)
+                VASSERT(bl_count[l] == hist[l], "bl_count[] is the histogram of the code lengths");
+        /* canonical code of symbol k (RFC 1951 3.2.2), bit-reversed as stored */
+        {
+                uint32_t next = 0, code = 0;
+                for (int bits = 1; bits <= 15; bits++) {
+                        code = (code + (bits > 1 ? hist[bits - 1] : 0)) << 1;
+                        if (bits == codes[I.k].length)
+                                next = code;
+                }
+                for (int i = 0; i < TN; i++)
+                        if (i < I.k && codes[i].length == codes[I.k].length)
+                                next = next + 1;
+                uint32_t len = codes[I.k].length, rev = 0;
+                for (uint32_t b = 0; b < 15; b++)
+                        if (b < len && ((next >> b) & 1))
+                                rev |= 1u << (len - 1 - b);
+                VASSERT(codes[I.k].code == rev, "code of symbol k is the canonical code, bit-reversed");
+        }
+#if TL >= 4 || TN <= 2
+        /* no repair needed when the limit cannot bind (depth <= TN-1 <= TL): a more frequent symbol
+         * never gets a longer code */
+#if TN - 1 <= TL
+        if (I.cnt[I.j] > I.cnt[I.k])
+                VASSERT(codes[I.j].length <= codes[I.k].length, "more frequent symbol: code not longer");
+#endif
+#endif
+        VREACHED();
+}
+
 #elif defined(H_CREATE)
 /* ================================================================== isal_create_hufftables, concrete histogram
  * The REAL table builder is run in-model on a CONCRETE histogram (HIST_KIND, swept by the plan); symbolic
@@ -430,7 +514,7 @@ harness(void)
 }
 #endif
 
-#if defined(H_CREATE) || defined(H_RL) || defined(H_WRL) || defined(H_LEN) || defined(H_DIST) || defined(H_SYM) || defined(H_USEABLE) ||         \
+#if defined(H_TREE) || defined(H_CREATE) || defined(H_RL) || defined(H_WRL) || defined(H_LEN) || defined(H_DIST) || defined(H_SYM) || defined(H_USEABLE) ||         \
         defined(H_HEAP)
 VERIF_MAIN
 #endif
